@@ -132,6 +132,9 @@ public:
         if (m_n != mat.cols())
             throw std::invalid_argument("TridiagEigen: matrix must be square");
 
+        // Results of an earlier call are no longer valid
+        m_computed = false;
+
         m_main_diag.resize(m_n);
         m_sub_diag.resize(m_n - 1);
         m_evecs.resize(m_n, m_n);
